@@ -39,6 +39,7 @@ class _CachedPage:
 
     page_id: int
     dirty: bool = False
+    writes: int = 0  # bumped by every write_page(); lets a write-back in flight notice a newer write
 
 
 @dataclass(frozen=True)
@@ -162,11 +163,17 @@ class PageCache(Entity):
 
         oldest_id, oldest = next(iter(self._pages.items()))
         if oldest.dirty:
+            seen = oldest.writes
             yield self._disk_write_latency_s
             self._dirty_writebacks += 1
             if self._pages.get(oldest_id) is not oldest:
                 # Another operation already evicted (or replaced) this page
                 # while the write-back was in flight.
+                return
+            if oldest.writes != seen:
+                # The page was written again while its write-back was in
+                # flight: the device has the older content, so the page must
+                # stay cached and dirty (it is most-recently-used now anyway).
                 return
 
         del self._pages[oldest_id]
@@ -222,6 +229,7 @@ class PageCache(Entity):
         if page_id in self._pages:
             self._hits += 1
             self._pages[page_id].dirty = True
+            self._pages[page_id].writes += 1
             self._touch(page_id)
             return
 
@@ -237,8 +245,11 @@ class PageCache(Entity):
         flushed = 0
         for page in list(self._pages.values()):  # other operations may insert/evict while a write is in flight
             if page.dirty:
+                seen = page.writes
                 yield self._disk_write_latency_s
-                page.dirty = False
+                if page.writes == seen:
+                    # (a page written again during the write stays dirty)
+                    page.dirty = False
                 self._dirty_writebacks += 1
                 flushed += 1
         return flushed
